@@ -5,7 +5,9 @@ PROP = dict(
     case_type='C17.case', verdict='C17.verdict', explain='C17.model',
     rule='seven case kinds per 20 generated cases: 1 cell of the type x option matrix (6 types x 7 options, every cell '
          'every quick run, valid value, random quoting style) and 1 entry of a boundary-value table (57 uid/gid/dev/'
-         'absent/mod/targ/src values in otherwise valid lines, all of them every quick run); 6 structured add-files lines from the '
+         'absent/mod/targ/src values in otherwise valid lines, all of them every quick run) 1 line of the space look-alike table '
+         '(names and src=/targ= values with bytes 0x85, 0xA0 as in UTF-8 letters or alone, \\v \\f \\r, in every quoting style); 5 '
+         'structured add-files lines as below; structured add-files lines from the '
          'documented grammar (all types incl. unknown ones, names with spaces/quotes/backslashes/tabs/UTF-8/%-verbs/'
          'escaped and wildcard asterisks, 0..5 options with valid, boundary and invalid values, bare/single/double '
          'quoting per field, blank runs) given to stage.parseLine; 3 byte-soup or damaged lines (trailing backslash, '
